@@ -27,6 +27,7 @@ class Net:
         self.cur = None
         self.consumed = set()
         self.qctr = 0
+        self.taps = []
 
     # tensors ----------------------------------------------------------------------------------
     def qparams(self, dtype):
@@ -90,7 +91,7 @@ class Net:
         return self.tensors[i]["quant"]["zp"][0]
 
     def model(self):
-        outs = [i for i in self.open if i not in self.consumed]
+        outs = [i for i in self.open if i not in self.consumed or i in self.taps]
         if not outs:
             outs = [self.cur]
         return dict(subgraphs=[dict(name="main", tensors=self.tensors, inputs=list(self.inputs), outputs=outs, ops=self.ops)])
@@ -534,11 +535,46 @@ def _custom(net):
     return True
 
 
+@inst("tap")
+def _tap(net):
+    """the current (intermediate) tensor additionally becomes a graph output; the chain continues from it"""
+    if net.cur in net.inputs or net.cur in net.taps:
+        return False
+    net.taps.append(net.cur)
+    return True
+
+
+@inst("branch_cpu")
+def _branch_cpu(net):
+    """a CPU-only consumer (NEG) branches off the current tensor; the chain continues from the current tensor"""
+    x = net.cur
+    t = net.T(x)
+    if t["dtype"] not in ("int8", "uint8", "int16") or x in net.inputs:
+        return False
+    y = net.act(t["shape"], t["dtype"])
+    net.op("NEG", [x], [y], ("NegOptions", {}))
+    net.cur = x
+    return True
+
+
+@inst("branch_npu")
+def _branch_npu(net):
+    """an NPU consumer (RELU) branches off the current tensor; the chain continues from the current tensor"""
+    x = net.cur
+    t = net.T(x)
+    if t["dtype"] not in ("int8", "uint8", "int16") or x in net.inputs:
+        return False
+    y = net.act(t["shape"], t["dtype"], q=(net.scale(x), net.zp(x)))
+    net.op("RELU", [x], [y], None)
+    net.cur = x
+    return True
+
+
 SIGMA_Q = [
     "conv1x1", "conv3x3", "conv3x3s2", "conv3x3v_relu6", "conv3x3d2", "dw3x3", "dw3x3s2", "fc", "maxpool2x2",
     "avgpool2x2", "avgpool3x3same", "add_res", "add_const", "add_scalar", "add_bcast_h", "sub_const", "mul_const",
     "min_const", "relu", "leaky_relu", "logistic", "tanh", "hard_swish", "reshape", "concat", "split", "strided_slice",
-    "pad_hw", "pad_c", "mean", "resize_nn2", "quantize", "tconv_s2", "softmax", "cpu_d2s", "cpu_custom", "conv_dynw", "cpu_neg",
+    "pad_hw", "pad_c", "mean", "resize_nn2", "quantize", "tconv_s2", "softmax", "cpu_d2s", "cpu_custom", "conv_dynw", "cpu_neg", "tap", "branch_cpu", "branch_npu",
 ]
 SIGMA_T = SIGMA_Q + [n for n, (_, tags) in INSTANCES.items() if "t" in tags]
 SIGMA_C = [n for n, (_, tags) in INSTANCES.items() if "c" in tags]
